@@ -18,6 +18,18 @@ func h_lower(s string) string {
 	return string(b)
 }
 
+// h_mixed_case: the string holds both an upper-case and a lower-case ASCII letter (branch-free)
+func h_mixed_case(s string) bool {
+	var anyUp, anyLow byte
+	for i := 0; i < len(s); i++ {
+		up := s[i] >= 'A' && s[i] <= 'Z'
+		low := s[i] >= 'a' && s[i] <= 'z'
+		anyUp |= zzverif.Ite8(up, 1, 0)
+		anyLow |= zzverif.Ite8(low, 1, 0)
+	}
+	return anyUp&anyLow != 0
+}
+
 // C15: encode -> decode is the identity for every witness version, legal program length and program.
 func H_C15_SegwitEncDec() {
 	ver := zzverif.Enum("ver", 17)
@@ -73,6 +85,9 @@ func h_c15_decenc(L int) {
 	}
 	zzverif.Reach("accepted")
 	zzverif.Assert("C15.segwit.rules", ver >= 0 && ver <= 16 && len(prog) >= 2 && len(prog) <= 40 && (ver != 0 || len(prog) == 20 || len(prog) == 32))
+	// BIP173: "Decoders MUST NOT accept strings where some characters are uppercase and some are lowercase" -
+	// the human-readable part included (prefixes Bc / bC, or BC / bc with a data part in the other case)
+	zzverif.Assert("C15.segwit.no-mixed-case", !h_mixed_case(s))
 	re := SegwitEncode("bc", ver, prog)
 	zzverif.Assert("C15.segwit.reencode", re == h_lower(s))
 }
